@@ -68,6 +68,13 @@ THEOREMS = [
     "IrVerif.Clone.C13_function_clone_raises_iff",
     "IrVerif.Clone.C13_closed_sharding_any",
     "IrVerif.Clone.C13_closed_sharding_any_model",
+    "IrVerif.Clone.C13_wiring_image",
+    "IrVerif.Clone.C13_wiring_refs_exact",
+    "IrVerif.Clone.C13_faithful_of_wiring",
+    "IrVerif.Clone.C13_faithful_observe_wiring",
+    "IrVerif.Clone.C13_model_clone_succeeds",
+    "IrVerif.Clone.C13_model_clone_raises_iff",
+    "IrVerif.Clone.C13_spec_unbound_D342",
 ]
 ASSUMPTIONS = [
     "hand-written model IrVerif.Clone of _cloner.py / the clone entry points / the constructors they call; tied to the "
@@ -147,6 +154,10 @@ _DTYPES = [1, 7, 6, 10, 9, 11]  # FLOAT INT64 INT32 FLOAT16 BOOL DOUBLE
 # cloned region makes clone(allow_outer_scope_values=False) raise).  The oracle signatures
 # `closed:sharding:own-value-of-original:*` and `closed:sharding:outer-value:*` are the live regression checks.
 NONLOCAL_SPEC_P = float(__import__("os").environ.get("C13_NONLOCAL_SPEC_P", "0.2") or 0)
+# probability that a generated graph with device configurations gets a sharding spec on the output of a LATER node
+# (finding D342, reported and not applied: the model is what the code is, `C13_spec_unbound_D342`; the oracle counts the
+# consequences as `observation=D342:*`, never as a failure); the same switch lets shuffled graphs carry non-local specs
+LATER_SPEC_P = float(__import__("os").environ.get("C13_LATER_SPEC_P", "0.06") or 0)
 
 
 def build_type(t):
@@ -854,7 +865,183 @@ def source_analysis(root):
     return defined, outer, ordered
 
 
-def check_clone_oracle(out, spec, src, clone, pre_cells, src_ser, tag):
+class _Hang(BaseException):
+    """the real code used up its CPU budget (BaseException: no `except Exception` of the code under test swallows it)"""
+
+
+CPU_BUDGET_CASE = float(__import__("os").environ.get("C13_CPU_BUDGET_S", "60") or 60)
+
+
+def cpu_guarded(fn, seconds=CPU_BUDGET_CASE):
+    """fn() under a guard on the CPU time of this process (ITIMER_VIRTUAL only runs while the process executes, so
+    machine load cannot trip it): real code that loops forever (a changed linked list / sort / use-def loop) burns CPU
+    and is interrupted instead of hanging the check.  A healthy case takes milliseconds."""
+    import signal
+
+    def _alarm(_sig, _frm):
+        raise _Hang()
+
+    old = signal.signal(signal.SIGVTALRM, _alarm)
+    signal.setitimer(signal.ITIMER_VIRTUAL, seconds)
+    try:
+        return fn()
+    finally:
+        signal.setitimer(signal.ITIMER_VIRTUAL, 0)
+        signal.signal(signal.SIGVTALRM, old)
+
+
+class _VmapTap:
+    """records the `value_map` dict of every real `Cloner` created while active (the clone entry points pass a fresh
+    `{}` which the cloner fills in place): the REAL final value map, for C13_wiring_image / C13_value_map_bijection"""
+
+    def __enter__(self):
+        from onnx_ir import _cloner
+
+        self.maps = []
+        self.cls = _cloner.Cloner
+        self.orig = _cloner.Cloner.__init__
+        tap = self
+
+        def init(this, *a, **kw):
+            tap.orig(this, *a, **kw)
+            tap.maps.append(getattr(this, "_value_map", None))
+
+        _cloner.Cloner.__init__ = init
+        return self
+
+    def __exit__(self, *exc):
+        self.cls.__init__ = self.orig
+        return False
+
+
+def later_spec_values(root):
+    """ids of the values targeted by a sharding spec of a node that is cloned BEFORE the node defining the value (the
+    value is neither an input nor an output of the spec's node, it is defined in the cloned region, and it is not
+    bound yet when the spec's node is cloned): the shape of finding D342"""
+    graphs, nodes, values = walk(root)
+    defined = {id(v) for v in values}
+    later: set[int] = set()
+    seen: set[int] = set()
+
+    def g_(g):
+        for v in list(g.inputs) + list(g.initializers.values()):
+            seen.add(id(v))
+        for n in g:
+            for a in n.attributes.values():
+                if not a.is_ref() and a.type == ir.AttributeType.GRAPH:
+                    g_(a.value)
+                elif not a.is_ref() and a.type == ir.AttributeType.GRAPHS:
+                    for x in a.value:
+                        g_(x)
+            for v in n.outputs:
+                seen.add(id(v))
+            own = {id(v) for v in n.inputs if v is not None} | {id(v) for v in n.outputs}
+            for c in n.device_configurations:
+                for sp in c.sharding_specs:
+                    v = sp.value
+                    if v is not None and id(v) not in own and id(v) in defined and id(v) not in seen:
+                        later.add(id(v))
+
+    def f_(f):
+        g_(f.graph)
+        for a in f.attributes.values():
+            if not a.is_ref() and a.type == ir.AttributeType.GRAPH:
+                g_(a.value)
+            elif not a.is_ref() and a.type == ir.AttributeType.GRAPHS:
+                for x in a.value:
+                    g_(x)
+
+    if isinstance(root, ir.Model):
+        g_(root.graph)
+        for f in root.functions.values():
+            seen.clear()
+            f_(f)
+    elif isinstance(root, ir.Function):
+        f_(root)
+    else:
+        g_(root)
+    return later
+
+
+def check_wiring(out, spec, src, clone, vmap, allow, tag):
+    """C13_wiring_image on the real objects, independent of the model: the clone is the image of the source under the
+    REAL cloner's final value map `vmap` ({id(original value): cloned value}): graph inputs / initializers / outputs and
+    node outputs are the bound clones, every node input and sharding target is the image (or, with
+    allow_outer_scope_values, passed through), graph-free attributes are shared, graph attributes are re-made around
+    graphs that are again images, operator fields and metadata_props are equal."""
+    bad: list[str] = []
+
+    def img_ok(r, r2):
+        if r is None:
+            return r2 is None
+        if id(r) in vmap and r2 is vmap[id(r)]:
+            return True
+        if id(r) not in vmap:
+            return r2 is r  # its own image (an outer value)
+        return allow and r2 is r  # passed through before it was bound (only with allow_outer_scope_values)
+
+    def vals(l, l2, what):
+        if len(l) != len(l2) or any(id(a) not in vmap or vmap[id(a)] is not b for a, b in zip(l, l2)):
+            bad.append(what)
+
+    def graph(g, g2):
+        vals(list(g.inputs), list(g2.inputs), "graph-inputs")
+        vals(list(g.initializers.values()), list(g2.initializers.values()), "initializers")
+        vals(list(g.outputs), list(g2.outputs), "graph-outputs")
+        if (g.name, g.doc_string, dict(g.opset_imports), dict(g.metadata_props)) != (
+            g2.name, g2.doc_string, dict(g2.opset_imports), dict(g2.metadata_props)):  # fmt: skip
+            bad.append("graph-fields")
+        ns, ns2 = list(g), list(g2)
+        if len(ns) != len(ns2):
+            bad.append("node-count")
+            return
+        for n, n2 in zip(ns, ns2):
+            node(n, n2)
+
+    def node(n, n2):
+        if (n.domain, n.op_type, n.overload, n.version, n.name, n.doc_string, dict(n.metadata_props)) != (
+            n2.domain, n2.op_type, n2.overload, n2.version, n2.name, n2.doc_string, dict(n2.metadata_props)):  # fmt: skip
+            bad.append("node-fields")
+        if len(n.inputs) != len(n2.inputs) or not all(img_ok(a, b) for a, b in zip(n.inputs, n2.inputs)):
+            bad.append("node-inputs")
+        vals(list(n.outputs), list(n2.outputs), "node-outputs")
+        for a in n.attributes.values():
+            a2 = n2.attributes.get(a.name)
+            if a2 is None:
+                bad.append("attr-missing")
+            elif not a.is_ref() and a.type == ir.AttributeType.GRAPH:
+                if a2 is a or a2.is_ref() or a2.type != ir.AttributeType.GRAPH:
+                    bad.append("attr-graph-shared")
+                else:
+                    graph(a.value, a2.value)
+            elif not a.is_ref() and a.type == ir.AttributeType.GRAPHS:
+                if a2 is a or a2.is_ref() or a2.type != ir.AttributeType.GRAPHS or len(a.value) != len(a2.value):
+                    bad.append("attr-graphs-shared")
+                else:
+                    for x, x2 in zip(a.value, a2.value):
+                        graph(x, x2)
+            elif a2 is not a:
+                bad.append("attr-not-shared")
+        d, d2 = n.device_configurations, n2.device_configurations
+        if len(d) != len(d2):
+            bad.append("dev-count")
+        for c, c2 in zip(d, d2):
+            if (c.configuration is not c2.configuration or c.pipeline_stage != c2.pipeline_stage
+                    or len(c.sharding_specs) != len(c2.sharding_specs)):  # fmt: skip
+                bad.append("dev-fields")
+            for sp, sp2 in zip(c.sharding_specs, c2.sharding_specs):
+                if tuple(sp.device) != tuple(sp2.device) or not img_ok(sp.value, sp2.value):
+                    bad.append("dev-spec")
+
+    graph(src, clone)
+    if bad:
+        out.fail(f"wiring:{bad[0]}:{tag}", "the clone is not the image of the source under the cloner's value map",
+                 {"spec": spec, "bad": sorted(set(bad))})  # fmt: skip
+    else:
+        out.count("wiring_image_holds_on_real_objects=True")
+
+
+def check_clone_oracle(out, spec, src, clone, pre_cells, src_ser, tag, later=frozenset()):
     """faithful / fresh / closed on the real objects; `out.fail` on violation.
     Returns True when the clone shares an object with / refers into the original."""
     entangled = False
@@ -895,6 +1082,13 @@ def check_clone_oracle(out, spec, src, clone, pre_cells, src_ser, tag):
             if allow and id(v) not in defined_src:
                 continue  # a captured outer value, explicitly allowed
             entangled = True
+            if what == "sharding" and allow and id(v) in later:
+                # finding D342 (reported, proposed_fixes/D342.md, not applied): the spec targets a value that a LATER
+                # node of the cloned region defines; it is not in the value map yet when its node is cloned, so
+                # allow_outer_scope_values=True keeps it on the ORIGINAL's value.  C13_spec_unbound_D342 states
+                # exactly this of the model; counted as an observation, not as a failure
+                out.count("observation=D342:allow=True:spec-kept-on-original-value")
+                continue
             kindsig = "own-value-of-original" if id(v) in defined_src else "outer-value"
             order = "sorted" if ordered else "unsorted"
             out.fail(f"closed:{what}:{kindsig}:{order}:allow={allow}:{tag}",
@@ -1211,7 +1405,22 @@ class SpecGen:
         if rng.random() < 0.3:
             g["opsets"] = {"": 18, "custom": 1}
         self.metas(g, 0.2)
-        if unsorted_ok and len(g["nodes"]) > 1 and rng.random() < 0.12 and not any(n.get("nonlocal_spec") for n in g["nodes"]):
+        if LATER_SPEC_P and self.nconfigs and len(g["nodes"]) > 1 and rng.random() < LATER_SPEC_P:
+            # finding D342: a sharding spec on a value that a LATER node of this graph defines (the graph stays
+            # def-before-use sorted: a spec is an annotation, not a use)
+            js = [j for j in range(1, len(g["nodes"])) if g["nodes"][j]["outs"]]
+            if js:
+                j = rng.choice(js)
+                n = g["nodes"][rng.randrange(j)]
+                n.setdefault("dev", []).append({"cfg": rng.randrange(self.nconfigs), "stage": rng.choice([None, 0]),
+                                                "specs": [{"value": rng.choice(g["nodes"][j]["outs"])["name"],
+                                                           "device": [0, 1]}]})  # fmt: skip
+                n["nonlocal_spec"] = True
+                g["later_spec"] = True
+        if unsorted_ok and len(g["nodes"]) > 1 and rng.random() < 0.12 and (
+                LATER_SPEC_P or not any(n.get("nonlocal_spec") for n in g["nodes"])):  # fmt: skip
+            # shuffled graphs may carry non-local specs (a shuffle can also turn a spec on an earlier value into a
+            # spec on a later one)
             rng.shuffle(g["nodes"])
             g["unsorted"] = True
         return g
@@ -1295,9 +1504,38 @@ def gen_spec_nonlocal_spec(rng):
     return spec
 
 
+def gen_spec_later_spec(rng):
+    """finding D342.  g1(x): a = Relu(x) -> va; b = Neg(va) -> vb with a sharding spec on vc; c = Abs(va) -> vc: the
+    spec targets the output of a LATER node of a closed, def-before-use sorted graph.  Today: allow=True keeps the spec
+    on the ORIGINAL's vc, allow=False (graph / model / functionalize) raises."""
+    sg = SpecGen(rng, 2)
+    x, va, vb, vc = sg.value("x"), sg.value("v"), sg.value("v"), sg.value("v")
+    specs = [{"value": vc["name"], "device": [0, 1]}]
+    if rng.random() < 0.5:
+        specs.append({"value": rng.choice([va["name"], vb["name"]]), "device": [0, 1]})
+        rng.shuffle(specs)
+    nodes = [{"name": sg.name("n"), "op": "Relu", "inputs": [x["name"]], "outs": [va], "attrs": []},
+             {"name": sg.name("n"), "op": "Neg", "inputs": [va["name"]], "outs": [vb], "attrs": [], "nonlocal_spec": True,
+              "dev": [{"cfg": 0, "stage": rng.choice([None, 0]), "specs": specs}]},
+             {"name": sg.name("n"), "op": "Abs", "inputs": [va["name"]], "outs": [vc], "attrs": []}]  # fmt: skip
+    g1 = {"name": "g1", "inputs": [x], "inits": [], "nodes": nodes, "outputs": [vb["name"], vc["name"]],
+          "later_spec": True}
+    spec = {"ntensors": 3, "type_pool": [gen_type(rng) for _ in range(sg.ntypes)],
+            "shape_pool": [gen_shape(rng) for _ in range(sg.nshapes)], "nconfigs": 1, "ir_version": 11, "graph": g1,
+            "functions": [], "views": []}
+    r = rng.random()
+    if r < 0.7:
+        spec["target"] = {"kind": "graph", "name": "g1", "allow": rng.random() < 0.6}
+    else:
+        spec["target"] = {"kind": rng.choice(["model", "functionalize"])}
+    return spec
+
+
 def gen_spec(rng, size=4):
     if NONLOCAL_SPEC_P and rng.random() < 0.04:
         return gen_spec_nonlocal_spec(rng)
+    if LATER_SPEC_P and rng.random() < 0.03:
+        return gen_spec_later_spec(rng)
     if rng.random() < 0.1:
         return gen_spec_failing_after_nested(rng)
     sg = SpecGen(rng, size)
@@ -1607,16 +1845,22 @@ def real_case(spec, histories_seed, n_hist, n_edits, out, fixed_plans=None):
            "src_values": src_values,
            "src_serializes": isinstance(src_ser, bytes),
            "src_ser_exc": None if isinstance(src_ser, bytes) else src_ser[1], "ser_excuse": ser_excuse(src)}
+    later = later_spec_values(src)
+    out.count(f"d342_shape={bool(later)}")
+    tap = _VmapTap()
     try:
-        clone = do_clone_kind(b, kind, t)
+        with tap:
+            clone = do_clone_kind(b, kind, t)
         res["outcome"] = "ok"
     except Exception as e:  # noqa: BLE001
         clone = None
         res["outcome"] = "raised"
         chain = []
         x = e
+        root_msg = ""
         while x is not None and len(chain) < 20:
             chain.append(type(x).__name__)
+            root_msg = str(x)
             x = x.__cause__
         res["exc"] = ">".join(chain)
         # "a clear error": the documented wrapper (RuntimeError naming the cloning step) around the error that
@@ -1634,7 +1878,12 @@ def real_case(spec, histories_seed, n_hist, n_edits, out, fixed_plans=None):
     if clone is None:
         # a clear error is expected exactly when a reference cannot be resolved
         if not outer and ordered:
-            out.fail(f"raises:{sig_shape}", "clone raised on a closed, def-before-use source", {"spec": spec, "exc": res["exc"]})
+            if later and "targeted by a sharding spec" in root_msg:
+                # finding D342: a spec on a value defined by a LATER node makes clone(allow_outer_scope_values=False)
+                # raise on a closed, sorted source (C13_spec_unbound_D342: the model does the same)
+                out.count("observation=D342:allow=False:raises-on-closed-sorted-source")
+            else:
+                out.fail(f"raises:{sig_shape}", "clone raised on a closed, def-before-use source", {"spec": spec, "exc": res["exc"]})
         # a failed clone must not have changed the source
         if [snapshot(r) for r in all_roots] != snap_all_before:
             out.fail(f"failed-clone-side-effect:{sig_shape}", "a raising clone changed the original", {"spec": spec})
@@ -1656,7 +1905,15 @@ def real_case(spec, histories_seed, n_hist, n_edits, out, fixed_plans=None):
     clone_id = heap.add_root(clone)
     res["clone_id"] = clone_id
     res["world1"] = heap.dump()
-    entangled = check_clone_oracle(out, spec, src, clone, pre_cells, src_ser, tag)
+    entangled = check_clone_oracle(out, spec, src, clone, pre_cells, src_ser, tag, later)
+    if step["op"] == "graphClone" and len(tap.maps) == 1 and isinstance(tap.maps[0], dict):
+        # C13_wiring_image: the REAL cloner's final value map, as (source value, clone value) heap ids, and the wiring
+        # oracle on the real objects
+        vm = tap.maps[0]
+        res["vmap"] = sorted((heap.ids.get(id(k), -1), heap.ids.get(id(v), -1)) for k, v in vm.items())
+        check_wiring(out, spec, src, clone, {id(k): v for k, v in vm.items()}, allow, tag)
+    elif step["op"] == "graphClone":
+        out.count("value_map_not_captured")
     # cloning must not change what the source owns (usage records by clone nodes are excluded by snapshot())
     if [snapshot(r) for r in all_roots] != snap_all_before:
         out.fail(f"clone-side-effect:{sig_shape}", "clone() changed the original", {"spec": spec})
@@ -1822,7 +2079,12 @@ def _worker(args):
         try:
             rng = random.Random(s)
             spec = gen_spec(rng, size)
-            results.append(real_case(spec, s + 1, n_hist, n_edits, part))
+            try:
+                results.append(cpu_guarded(lambda: real_case(spec, s + 1, n_hist, n_edits, part)))  # noqa: B023
+            except _Hang:
+                part.fail(f"nontermination:real-case:{spec['target']['kind']}",
+                          f"the real code did not finish a clone / edit case within {CPU_BUDGET_CASE:.0f}s of CPU time",
+                          {"spec": spec})  # fmt: skip
         except Exception as e:  # noqa: BLE001
             # name the case: `gen_spec(random.Random(<seed>), <size>)` / `real_case(spec, <seed>+1, ..)` replays it
             import traceback
@@ -1943,11 +2205,15 @@ def compare_cases(ctx: Ctx, results):
         elif r["step"]["op"] == "funcClone":  # funcVerdict (C13_function_clone_*)
             vreqs.append({"m": "clone.verdict", "world": r["world0"], "f": r["step"]["f"]})
             vres.append((r, o["outcomes"][2]))
+        elif r["step"]["op"] == "modelClone":  # modelVerdict (C13_model_clone_*), also what functionalize runs
+            vreqs.append({"m": "clone.verdict", "world": r["world0"], "mo": r["step"]["mo"]})
+            vres.append((r, o["outcomes"][2]))
     for (r, oc), v in zip(vres, lean_batch_parallel(vreqs)):
         if "err" in v:
             ctx.disagree("driver error (verdict)", {"spec": r["spec"]}, v, None)
             continue
-        ctx.count(f"{'func_' if r['step']['op'] == 'funcClone' else ''}verdict={v['v']}:real={r['outcome']}")
+        pre = {"funcClone": "func_", "modelClone": "model_"}.get(r["step"]["op"], "")
+        ctx.count(f"{pre}verdict={v['v']}:real={r['outcome']}")
         if v["v"] == "irregular":
             ctx.count(f"verdict_irregular_because={v.get('why')}")
             continue
@@ -1957,6 +2223,8 @@ def compare_cases(ctx: Ctx, results):
         elif v["v"] in ("ok", "raised") and v["v"] != r["outcome"]:
             ctx.disagree(f"walker verdict {v['v']} ({v.get('why')}) but the real clone {r['outcome']} ({r.get('exc')})",
                          {"spec": r["spec"]}, v, r["outcome"])
+        elif v["v"] == "ok" and r["step"]["op"] == "modelClone":
+            pass  # one value map per function: no single bound list
         elif v["v"] == "ok":
             # C13_value_map_bijection: the keys of the value map are the walker's bound list; on the real objects these
             # are exactly the values the cloned region defines (inputs, initializers, node outputs at any depth), once each
@@ -1965,6 +2233,29 @@ def compare_cases(ctx: Ctx, results):
                              {"spec": r["spec"]}, sorted(v["bound"]), sorted(r["src_values"]))
             else:
                 ctx.count("bound_list_is_region_values=True")
+    # C13_wiring_image / C13_value_map_bijection: the model's final value map is the REAL cloner's final value map (up
+    # to the renaming that relates the two heaps)
+    wreqs, wres = [], []
+    for r, o in zip(results, outs):
+        if r.get("vmap") is None or "err" in o or o["outcomes"][2]["r"] != "ok" or r["outcome"] != "ok":
+            continue
+        wreqs.append({"m": "clone.vmap", "world": r["world0"], "g": r["step"]["g"], "allow": r["step"]["allow"]})
+        wres.append((r, o))
+    for (r, o), v in zip(wres, lean_batch_parallel(wreqs)):
+        if "err" in v or v["outcome"]["r"] != "ok":
+            ctx.disagree("driver error / outcome (vmap)", {"spec": r["spec"]}, v.get("outcome", v), None)
+            continue
+        cm, om = canon(v["world"], r["roots"] + [v["outcome"]["id"]])
+        ci, oi = canon(r["world1"], r["roots"] + [r["clone_id"]])
+        if cm != ci:
+            continue  # reported as "heap after clone" above
+        m = dict(zip(oi, om))
+        real = sorted((m.get(a, -1), m.get(b, -2)) for a, b in r["vmap"])
+        model = sorted((a, b) for a, b in v["vm"])
+        if real != model:
+            ctx.disagree("final value map: model vs the real Cloner._value_map", {"spec": r["spec"]}, model, real)
+        else:
+            ctx.count(f"value_map_equal=True:size={min(len(model), 8)}")
     outs2 = lean_batch_parallel(reqs2)
     for (r, h, mroots, iroots), o in zip(idx2, outs2):
         spec = r["spec"]
@@ -2031,6 +2322,13 @@ def replay(ctx: Ctx, obj: dict) -> None:
     spec = case["spec"]
     part = Part()
     fixed = [(case["side"], case["edits"])] if "edits" in case else None
-    res = real_case(spec, 1, 2, 6, part, fixed_plans=fixed)
+    try:
+        res = cpu_guarded(lambda: real_case(spec, 1, 2, 6, part, fixed_plans=fixed))
+    except _Hang:
+        part.fail(f"nontermination:real-case:{spec['target']['kind']}",
+                  f"the real code did not finish a clone / edit case within {CPU_BUDGET_CASE:.0f}s of CPU time",
+                  {"spec": spec})  # fmt: skip
+        ctx.merge(part)
+        return
     ctx.merge(part)
     compare_cases(ctx, [res])
